@@ -807,3 +807,50 @@ m('c05-sign-after-point-accepted', ['C05'], 'sign-only-at-head', [
                 }
 """, "")],
   'the repaired defect re-introduced: ".+5" parses as 0.05')
+# ---- C04 numeral shape
+m('c04-scientific-exponent-counts-all-digits', ['C04'], 'write_scientific_notation:point-and-exponent', [
+  ('src/impl_fmt.rs', 'write!(w, "e{}", remaining_digits.len() as i128 - n.scale as i128)', 'write!(w, "e{}", dec_str.len() as i128 - n.scale as i128)')],
+  'scientific notation exponent one too large for every value')
+m('c04-engineering-exponent-fixed-shift', ['C04'], 'write_engineering_notation:point-and-exponent', [
+  ('src/impl_fmt.rs', "    let exp = top_digit_exponent - shift_amount as i128;", "    let exp = top_digit_exponent - 3;")],
+  'engineering exponent assumes three leading digits')
+m('c04-exp-format-exponent-after-insert', ['C04'], 'format_exponential_bigendian_ascii_digits:point-and-exponent', [
+  ('src/impl_fmt.rs', """    let exponent = abs_int.len() as i128 + exp - 1;
+
+    if needs_decimal_point {
+        // only add decimal point if there is more than 1 decimal digit
+        abs_int.insert(1, '.');
+    }
+""", """    if needs_decimal_point {
+        // only add decimal point if there is more than 1 decimal digit
+        abs_int.insert(1, '.');
+    }
+
+    let exponent = abs_int.len() as i128 + exp - 1;
+""")],
+  '{:e} exponent computed after the point was inserted: off by one whenever a point is printed')
+m('c04-exp-format-forgets-rounding-carry', ['C04', 'C16'], 'format_exponential_bigendian_ascii_digits:point-and-exponent', [
+  ('src/impl_fmt.rs', "            exp += delta_exp as i128;\n", "            let _ = delta_exp;\n")],
+  '{:.Ne}: digits removed by rounding are not added to the exponent')
+m('c04-dotless-exponent-sign', ['C04'], 'format_dotless_exponential:point-and-exponent', [
+  ('src/impl_fmt.rs', 'write!(abs_int, "{}{:+}", e_symbol, -scale).unwrap();', 'write!(abs_int, "{}{:+}", e_symbol, scale).unwrap();')],
+  'dot-less exponent printed with the sign of the scale')
+m('c04-format-exponential-passes-scale', ['C04'], 'format_exponential->format_exponential_bigendian_ascii_digits:exponent', [
+  ('src/impl_fmt.rs', "    let exp = (this.scale as i128).neg();\n    let digits = abs_int.into_bytes();", "    let exp = this.scale as i128;\n    let digits = abs_int.into_bytes();")],
+  'exponent handed to the digit formatter without negation')
+# ---- C08 scale bookkeeping of impl_division
+m('c08-division-loop-forgets-scale', ['C08'], 'impl_division:scale-bookkeeping', [
+  ('src/lib.rs', "        precision += 1;\n        scale += 1;\n", "        precision += 1;\n")],
+  'digits appended to the quotient without advancing the scale: every non-terminating quotient is too large')
+m('c08-division-prescale-by-100', ['C08'], 'impl_division:scale-bookkeeping', [
+  ('src/lib.rs', "        scale += 1;\n        num *= 10;", "        scale += 1;\n        num *= 100;")],
+  'numerator shifted two digits per unit of scale when it is smaller than the denominator')
+m('c08-division-remainder-not-shifted', ['C08'], 'impl_division:scale-bookkeeping', [
+  ('src/lib.rs', "    remainder *= 10;\n\n    while !remainder.is_zero()", "    while !remainder.is_zero()")],
+  'first remainder not shifted before the digit loop: the next quotient digit is computed one place too high')
+m('c08-division-result-scale-off-by-one', ['C08'], 'impl_division:scale-bookkeeping', [
+  ('src/lib.rs', "    let result = BigDecimal::new(quotient, scale);", "    let result = BigDecimal::new(quotient, scale + 1);")],
+  'quotient labelled with the neighbouring scale')
+m('c08-division-loop-remainder-not-shifted', ['C08'], 'impl_division:scale-bookkeeping', [
+  ('src/lib.rs', "        remainder = r * 10;", "        remainder = r;")],
+  'remainder not shifted inside the digit loop')
